@@ -1,5 +1,6 @@
 import PsiProofs.Helper.C05_Spec
 import PsiProofs.Helper.C05_SeqSpec
+import PsiProofs.Helper.C05_Late
 /-!
 # C05 — epoch extraction returns exactly the requested samples, once, for any chunking
 
@@ -23,6 +24,18 @@ key has been removed (removal seen in this call or before) or delivered (before)
 special case (`valid_validSeq`), so the theorems of the first half are instances of the
 per-request ones; the point excluded by `ValidSeq` is exactly the code's
 `ValueError('Duplicate epochs not supported')` (`duplicate_key_rejected`).
+
+**Requests appended during a call** (third part).  `queue` is shared: a request may be appended to
+it while a call is running, after the call's intake loop and before its done test — by `target`
+itself (a consumer that schedules the next epoch when it is handed one) or by another thread.  A
+`Call` is an `Op` plus these `late` requests; `call` is the model of one `send` (`step` is `call`
+with no late request, `run_is_runCalls`).  Such a request stays in `queue`: it is *pending*, the
+done test must see it (`len(queue) == 0`), and the next call takes it in ahead of its own requests.
+`ValidCalls` is `Valid` of the history as the intake loops see it (`effective`).  The `calls_…`
+theorems are the statements of the first part for histories of calls; the done callback fires at
+most once, only when the source is complete, nothing is being captured **and the queue is empty**,
+and then every request made so far — late ones included — has been taken in and is settled
+(`calls_done_after_all_settled`).
 -/
 namespace Psi.Extract
 
@@ -170,10 +183,10 @@ theorem done_at_most_once {α} (B : Nat) (ops : List (Op α)) :
 /-- **Done callback: only when** the source is flagged complete, no capture is pending (and the
 queue has just been drained), and it has not fired before; it then stays disabled. -/
 theorem done_only_when {α} (st : State α) (op : Op α) (h : (step st op).2.fired = true) :
-    op.complete = true ∧ (step st op).1.pending = [] ∧ st.doneFired = false ∧
-      (step st op).1.doneFired = true := by
-  obtain ⟨h1, h2, h3, h4⟩ := (step_done st op).1 h
-  exact ⟨h3, h4, h1, h2⟩
+    op.complete = true ∧ (step st op).1.pending = [] ∧ (step st op).1.queue = [] ∧
+      st.doneFired = false ∧ (step st op).1.doneFired = true := by
+  obtain ⟨h1, h2, h3, h4, h5⟩ := (step_done st op).1 h
+  exact ⟨h3, h4, h5, h1, h2⟩
 
 /-- **Done callback fires** as soon as, in a valid history, the source is complete and nothing is
 pending after a call (unless it fired earlier). -/
@@ -444,5 +457,242 @@ theorem duplicate_key_rejected :
         { chunk := [13], reqs := [⟨8, 1, 4, 81⟩], rems := [], complete := false },
         { chunk := [14], reqs := [], rems := [8], complete := false } ]).2.map
       (fun o => match o with | .ok _ _ => 0 | .valueError => 1 | .dead => 2) = [0, 1, 2] := by decide
+
+/-! ## Requests appended to `queue` during a call -/
+
+/-- The histories of calls the property quantifies over: as the intake loops see them (a late
+request of one call is found by the next call, ahead of that call's own requests), keys pairwise
+distinct, one epoch length, every request taken in while its first sample is in the look-back
+window. -/
+def ValidCalls {α} (B L : Nat) (cs : List (Call α)) : Prop := Valid B L (effective [] cs)
+
+/-- all epochs delivered under key `k` during a run of calls, call by call -/
+def deliveriesCalls {α} (B : Nat) (cs : List (Call α)) (k : Nat) : List (List (Epoch α)) :=
+  (runCalls (State.init B) cs).2.map (delivK k)
+
+/-- **No late request = the model of the first part.** -/
+theorem run_is_runCalls {α} (st : State α) (ops : List (Op α)) :
+    run st ops = runCalls st (ops.map (fun op => { op with late := [] })) :=
+  run_eq_runCalls st ops
+
+theorem sim_init {α} (B : Nat) (cs : List (Call α)) :
+    Sim (runCalls (State.init B) cs).1 (run (State.init B) (effective [] cs)).1 ∧
+    (runCalls (State.init B) cs).2.map Outcome.unfire =
+      (run (State.init B) (effective [] cs)).2.map Outcome.unfire :=
+  runCalls_sim cs (State.init B) (State.init B) [] ⟨rfl, rfl, rfl, rfl, rfl⟩ rfl (fun _ => rfl)
+
+theorem deliveriesCalls_eq {α} (B : Nat) (cs : List (Call α)) (k : Nat) :
+    deliveriesCalls B cs k = deliveries B (effective [] cs) k := by
+  have h1 : ∀ (l : List (Outcome α)), l.map (delivK k) = (l.map Outcome.unfire).map (delivK k) := by
+    intro l
+    rw [List.map_map]
+    apply List.map_congr_left
+    intro o _
+    exact (delivK_unfire k o).symm
+  unfold deliveriesCalls deliveries
+  rw [h1, (sim_init B cs).2, ← h1]
+
+theorem effective_split {α} (pre rest : List (Call α)) (c : Call α) :
+    effective [] (pre ++ c :: rest) =
+      effective [] pre ++ { c.toOp with reqs := queueAfter [] pre ++ c.reqs } :: effective c.late rest := by
+  rw [effective_append]; rfl
+
+/-- **Refinement, with late requests.**  `r` is taken in by call `c`: it is one of `c`'s own
+requests or was left in `queue` by the calls before (appended during the last of them).  Then the
+epochs delivered under its key, call by call, are those of the spec of the first part — which
+looks at chunks and removals only. -/
+theorem calls_refine_spec {α} (B L : Nat) (pre rest : List (Call α)) (c : Call α) (r : Request)
+    (hv : ValidCalls B L (pre ++ c :: rest)) (hr : r ∈ queueAfter [] pre ++ c.reqs) :
+    deliveriesCalls B (pre ++ c :: rest) r.key =
+      pre.map (fun _ => []) ++
+        (specDeliver r (total (plain pre)) (plain (c :: rest))).map
+          (emit (streamOf (plain (pre ++ c :: rest))) r) := by
+  unfold ValidCalls at hv
+  rw [deliveriesCalls_eq, ← streamOf_effective [], effective_split] at *
+  rw [extract_refines_spec B L _ _ _ r hv hr, effective_map_const, total_effective]
+  have : specDeliver r (total (plain pre))
+        ({ c.toOp with reqs := queueAfter [] pre ++ c.reqs } :: effective c.late rest) =
+      specDeliver r (total (plain pre)) (plain (c :: rest)) :=
+    specDeliver_effective r (total (plain pre)) (queueAfter [] pre) (c :: rest)
+  rw [this]
+
+theorem flatten_map_nil' {α β} (l : List β) : (l.map (fun _ => ([] : List α))).flatten = [] := by
+  induction l with
+  | nil => rfl
+  | cons x xs ih => simpa using ih
+
+/-- **Delivered exactly once, exact content, with late requests.**  `r` is taken in by the first
+call of the segment `cj :: mid` (own request of `cj`, or left in `queue` by the call before), no
+removal naming it is seen during the segment, and the segment's chunks reach its last sample. -/
+theorem calls_delivered_exact {α} (B L : Nat) (pre mid post : List (Call α)) (cj : Call α) (r : Request)
+    (hv : ValidCalls B L (pre ++ (cj :: mid) ++ post)) (hr : r ∈ queueAfter [] pre ++ cj.reqs)
+    (hnorem : ∀ o ∈ cj :: mid, r.key ∉ o.rems)
+    (hend : r.s.toNat + r.len ≤ total (plain pre) + total (plain (cj :: mid))) :
+    (deliveriesCalls B (pre ++ (cj :: mid) ++ post) r.key).flatten =
+      [epochOf (streamOf (plain (pre ++ (cj :: mid) ++ post))) r] := by
+  have e : pre ++ (cj :: mid) ++ post = pre ++ cj :: (mid ++ post) := by simp
+  rw [e] at hv ⊢
+  rw [calls_refine_spec B L pre (mid ++ post) cj r hv hr]
+  have hp : plain (cj :: (mid ++ post)) = plain (cj :: mid) ++ plain post := by simp [plain]
+  have hn : ∀ o ∈ plain (cj :: mid), r.key ∉ o.rems := by
+    intro o ho
+    obtain ⟨c, hc, rfl⟩ := List.mem_map.1 ho
+    exact hnorem c hc
+  rw [hp, List.flatten_append, flatten_map_nil',
+    spec_once _ r (plain (cj :: mid)) (plain post) (total (plain pre)) (by simp [plain]) hn hend]
+  rfl
+
+/-- **Removed before its last sample ⇒ never delivered, with late requests.** -/
+theorem calls_removed_never_delivered {α} (B L : Nat) (pre seg post : List (Call α)) (ci : Call α)
+    (r : Request) (hv : ValidCalls B L (pre ++ (seg ++ ci :: post)))
+    (hr : ∃ c0 tl, seg ++ [ci] = c0 :: tl ∧ r ∈ queueAfter [] pre ++ c0.reqs)
+    (hrem : r.key ∈ ci.rems)
+    (hearly : seg = [] ∨ total (plain pre) + total (plain seg) < r.s.toNat + r.len) :
+    (deliveriesCalls B (pre ++ (seg ++ ci :: post)) r.key).flatten = [] := by
+  obtain ⟨c0, tl, htl, hr0⟩ := hr
+  have e : seg ++ ci :: post = c0 :: (tl ++ post) := by
+    have : seg ++ ci :: post = (seg ++ [ci]) ++ post := by simp
+    rw [this, htl]; rfl
+  have hearly' : plain seg = [] ∨ total (plain pre) + total (plain seg) < r.s.toNat + r.len := by
+    rcases hearly with h | h
+    · exact Or.inl (by rw [h]; rfl)
+    · exact Or.inr h
+  have hspec := spec_never (streamOf (plain (pre ++ (seg ++ ci :: post)))) r (plain seg) (plain post)
+    ci.toOp (total (plain pre)) hrem hearly'
+  have hp : plain seg ++ ci.toOp :: plain post = plain (seg ++ ci :: post) := by simp [plain]
+  rw [hp, e] at hspec
+  rw [e] at hv ⊢
+  rw [calls_refine_spec B L pre (tl ++ post) c0 r hv hr0, List.flatten_append, hspec, flatten_map_nil']
+  rfl
+
+/-- **Soundness of everything delivered, with late requests.**  A valid history of calls never
+raises, and every epoch handed to the target is `stream[s, s+len)` of the request it carries,
+which is one of the requests made (in the caller's turn or during a call). -/
+theorem calls_metadata_paired {α} (B L : Nat) (cs : List (Call α)) (hv : ValidCalls B L cs) :
+    ∀ out ∈ (runCalls (State.init B) cs).2, ∃ batch fired, out = .ok batch fired ∧
+      ∀ e ∈ batch, e = epochOf (streamOf (plain cs)) e.req ∧ e.req ∈ allMade cs ∧ e.data.length = L := by
+  intro out hout
+  have hmem : out.unfire ∈ (run (State.init B) (effective [] cs)).2.map Outcome.unfire := by
+    rw [← (sim_init B cs).2]; exact List.mem_map_of_mem hout
+  obtain ⟨out', hout', he⟩ := List.mem_map.1 hmem
+  obtain ⟨batch, fired, ho, hall⟩ := metadata_paired B L (effective [] cs) hv out' hout'
+  rw [ho] at he
+  obtain ⟨f', hf'⟩ := unfire_eq_ok out batch fired he.symm
+  refine ⟨batch, f', hf', ?_⟩
+  intro e hb
+  obtain ⟨h1, h2, h3⟩ := hall e hb
+  rw [streamOf_effective] at h1
+  refine ⟨h1, ?_, h3⟩
+  rcases allReqs_effective_sub [] cs e.req h2 with h | h
+  · cases h
+  · exact h
+
+/-- **Done callback: at most once**, in every history of calls (valid or not). -/
+theorem calls_done_at_most_once {α} (B : Nat) (cs : List (Call α)) :
+    ((runCalls (State.init B) cs).2.filter Outcome.fired).length ≤ 1 := by
+  have := calls_done_count (State.init B) cs
+  simpa [State.init] using this
+
+/-- **Done callback: only when** the source is flagged complete, no capture is pending, **`queue`
+is empty** — no request was appended to it since the intake loop of this very call — and it has
+not fired before; it then stays disabled. -/
+theorem calls_done_only_when {α} (st : State α) (c : Call α) (h : (call st c).2.fired = true) :
+    c.complete = true ∧ (call st c).1.pending = [] ∧ (call st c).1.queue = [] ∧ c.late = [] ∧
+      st.doneFired = false ∧ (call st c).1.doneFired = true := by
+  obtain ⟨h1, h2, h3, h4, h5, h6⟩ := (call_done st c).1 h
+  exact ⟨h3, h4, h5, h6, h1, h2⟩
+
+/-- **Done callback fires** as soon as, in a valid history of calls, the source is complete,
+nothing is pending and the queue is empty after a call (unless it fired earlier). -/
+theorem calls_done_fires {α} (B L : Nat) (pre : List (Call α)) (c : Call α)
+    (hv : ValidCalls B L (pre ++ [c])) (hcomplete : c.complete = true)
+    (hpend : (runCalls (State.init B) (pre ++ [c])).1.pending = [])
+    (hqueue : (runCalls (State.init B) (pre ++ [c])).1.queue = []) :
+    (runCalls (State.init B) (pre ++ [c])).1.doneFired = true := by
+  have hok := calls_metadata_paired B L (pre ++ [c]) hv
+    (call (runCalls (State.init B) pre).1 c).2 (by simp [runCalls_append, runCalls])
+  obtain ⟨batch, fired, ho, _⟩ := hok
+  simp only [runCalls_append, runCalls] at hpend hqueue ⊢
+  rw [(call_ok_doneFired _ c batch fired ho).1, hpend, hqueue, hcomplete]
+  cases (runCalls (State.init B) pre).1.doneFired <;> rfl
+
+/-- **Nothing pending means every request taken in is settled**, with late requests. -/
+theorem calls_pending_empty_all_settled {α} (B L : Nat) (pre rest : List (Call α)) (c : Call α)
+    (r : Request) (hv : ValidCalls B L (pre ++ c :: rest)) (hr : r ∈ queueAfter [] pre ++ c.reqs)
+    (hpend : (runCalls (State.init B) (pre ++ c :: rest)).1.pending = []) :
+    specPending r (total (plain pre)) (plain (c :: rest)) = false := by
+  unfold ValidCalls at hv
+  have hp := (sim_init B (pre ++ c :: rest)).1.2.1
+  rw [hpend, effective_split] at hp
+  rw [effective_split] at hv
+  have := pending_empty_all_settled B L _ _ _ r hv hr hp.symm
+  rw [total_effective] at this
+  rw [← this]
+  exact (specPending_effective r (total (plain pre)) (queueAfter [] pre) (c :: rest)).symm
+
+/-- **The callback fires only after every request made has been dealt with.**  If it fires in the
+last call of a valid history of calls, then every request made so far — in the caller's turn or
+during a call, this one included — was taken in by the intake loop of some call (none is left in
+`queue`) and is settled since: removed, or its last sample has arrived, in which case
+`calls_refine_spec` says its epoch was delivered in that call — not later. -/
+theorem calls_done_after_all_settled {α} (B L : Nat) (hist : List (Call α)) (last : Call α)
+    (hv : ValidCalls B L (hist ++ [last]))
+    (hf : (call (runCalls (State.init B) hist).1 last).2.fired = true) :
+    ∀ r ∈ allMade (hist ++ [last]), ∃ pre c rest, hist ++ [last] = pre ++ c :: rest ∧
+      r ∈ queueAfter [] pre ++ c.reqs ∧
+      specPending r (total (plain pre)) (plain (c :: rest)) = false := by
+  obtain ⟨_, hpend, _, hlate, _, _⟩ := calls_done_only_when _ last hf
+  have hq : queueAfter [] (hist ++ [last]) = [] := by
+    have : ∀ (q : List Request) (l : List (Call α)), queueAfter q (l ++ [last]) = last.late := by
+      intro q l
+      induction l generalizing q with
+      | nil => rfl
+      | cons x xs ih => simpa [queueAfter] using ih x.late
+    rw [this, hlate]
+  intro r hr
+  obtain ⟨pre, c, rest, e, hin⟩ := made_taken [] (hist ++ [last]) r (Or.inr hr) hq
+  refine ⟨pre, c, rest, e, hin, ?_⟩
+  rw [e] at hv
+  apply calls_pending_empty_all_settled B L pre rest c r hv hin
+  rw [← e]
+  simpa [runCalls_append, runCalls] using hpend
+
+/-! ### Non-vacuity: a consumer that posts the next request when it is handed an epoch -/
+
+/-- stream 10..17 in chunks 4+2+2, no look-back needed.  Key 1 = [11,13) is requested before the
+first call; when its epoch is handed over (call 0), the consumer posts key 2 = [14,16): late in
+call 0, taken in by call 1, complete in call 1.  The source is complete throughout. -/
+def exCalls : List (Call Nat) :=
+  [ { chunk := [10, 11, 12, 13], reqs := [⟨1, 1, 2, 10⟩], rems := [], complete := true, late := [⟨2, 4, 2, 20⟩] },
+    { chunk := [14, 15], reqs := [], rems := [], complete := true, late := [] },
+    { chunk := [16, 17], reqs := [], rems := [], complete := true, late := [] } ]
+
+theorem exCalls_valid : ValidCalls 0 2 exCalls := by
+  refine ⟨⟨by decide, by decide, by decide, by decide⟩, ⟨by decide, by decide, by decide, by decide⟩,
+    ⟨by decide, by decide, by decide, by decide⟩, trivial⟩
+
+/-- the callback does not fire in call 0 (the queue holds key 2) but in call 1, after the delivery -/
+example : (runCalls (State.init 0) exCalls).2.map (fun o => match o with
+      | .ok b f => (b.map (fun e => (e.req.key, e.data)), f) | _ => ([], false)) =
+    [([(1, [11, 12])], false), ([(2, [14, 15])], true), ([], false)] := by decide
+
+example : (deliveriesCalls 0 exCalls 2).flatten = [epochOf (streamOf (plain exCalls)) ⟨2, 4, 2, 20⟩] :=
+  calls_delivered_exact 0 2 [exCalls[0]] [] [exCalls[2]] exCalls[1] ⟨2, 4, 2, 20⟩ exCalls_valid
+    (by decide) (by decide) (by decide)
+
+/-- the hypotheses of `calls_done_after_all_settled` (and of `calls_done_only_when`) are met at call 1 -/
+example : ∀ r ∈ allMade ([exCalls[0]] ++ [exCalls[1]]), ∃ pre c rest,
+    [exCalls[0]] ++ [exCalls[1]] = pre ++ c :: rest ∧ r ∈ queueAfter [] pre ++ c.reqs ∧
+      specPending r (total (plain pre)) (plain (c :: rest)) = false :=
+  calls_done_after_all_settled 0 2 [exCalls[0]] exCalls[1]
+    (by refine ⟨⟨by decide, by decide, by decide, by decide⟩, ⟨by decide, by decide, by decide, by decide⟩,
+      trivial⟩)
+    (by decide)
+
+example : (runCalls (State.init 0) ([exCalls[0]] ++ [exCalls[1]])).1.doneFired = true :=
+  calls_done_fires 0 2 [exCalls[0]] exCalls[1]
+    (by refine ⟨⟨by decide, by decide, by decide, by decide⟩, ⟨by decide, by decide, by decide, by decide⟩,
+      trivial⟩)
+    (by decide) (by decide) (by decide)
 
 end Psi.Extract
